@@ -117,6 +117,7 @@ RestartEquivalent(r) ==
   /\ \A j \in DOMAIN r.outsOrig : SameBag(r.outsOrig[j], r.outsNew[j])
   /\ \A mid \in (DOMAIN r.liveOrigEnd \cup DOMAIN r.liveNewEnd) \ {"timers"} :
         mid \in DOMAIN r.liveOrigEnd /\ mid \in DOMAIN r.liveNewEnd /\ r.liveOrigEnd[mid] = r.liveNewEnd[mid]
+  /\ ("timers" \in DOMAIN r.liveOrigEnd) <=> ("timers" \in DOMAIN r.liveNewEnd)
   \* ... and the store the restarted crew's host keeps (the store it booted from plus what the new crew reports) is
   \* again the live crew
   /\ ShadowEqualsLive(r.shadowNewEnd, r.liveNewEnd)
